@@ -388,7 +388,7 @@ def r4_algebra(repo: Repo, rep):
                 continue
             flt = [pol for g, pol, k in p.guards if dump(g) == "self.filter_fn"]
             want = "self._sample_points_with_filter(params, device)" if flt and flt[0] else "self._sample_points(params, device)"
-            rep.check(R, dump(p.ret) == want, fi.site(), fi.fq, "sample_points dispatches on the filter and forwards params", dump(p.ret), dump(p.ret))
+            rep.check(R, dump(p.ret).replace("device=device", "device") == want, fi.site(), fi.fq, "sample_points dispatches on the filter and forwards params", dump(p.ret), dump(p.ret))
 
 
 # ------------------------------------------------------------------ R-C02-5 (G-DEF)
